@@ -1,4 +1,4 @@
-SPECIFICATION Spec
+SPECIFICATION SpecEager
 CONSTANTS
   Closers = {"k1"}
   Requesters = {"r1"}
